@@ -31,6 +31,7 @@ import (
 	"github.com/nspcc-dev/neo-go/pkg/vm/emit"
 	"github.com/nspcc-dev/neo-go/pkg/vm/opcode"
 	"go.uber.org/zap"
+	"go.uber.org/zap/zapcore"
 )
 
 // c20TB is the testing.TB handed to neotest outside `go test`: failures panic with c20Fail
@@ -225,12 +226,14 @@ func (s *c20Source) root(i uint32) util.Uint256 {
 
 // c20Node is one node of the source trie at the sync point, in canonical encoding.
 type c20Node struct {
-	h     util.Uint256
-	bytes []byte
-	kids  []util.Uint256 // hash children in encoding order (with repetitions)
+	h      util.Uint256
+	bytes  []byte
+	kids   []util.Uint256 // hash children in the order Billet.traverse visits them (value child first)
+	labels [][]byte       // path segment leading to each child (nibbles)
+	leaf   bool
 }
 
-// nodes of the trie with the given root, sorted by hash (deterministic ids)
+// nodes of the trie with the given root in first-visit pre-order (ids are stable under changes of values)
 func (s *c20Source) nodes(root util.Uint256) []c20Node {
 	seen := map[util.Uint256]bool{}
 	var out []c20Node
@@ -242,15 +245,27 @@ func (s *c20Source) nodes(root util.Uint256) []c20Node {
 		cn := c20Node{h: n.Hash(), bytes: bytes.Clone(n.Bytes())}
 		switch x := n.(type) {
 		case *mpt.BranchNode:
-			for _, c := range x.Children {
+			order := append([]int{16}, 0, 1, 2, 3, 4, 5, 6, 7, 8, 9, 10, 11, 12, 13, 14, 15)
+			for _, i := range order {
+				c := x.Children[i]
 				if c.Type() == mpt.HashT {
 					cn.kids = append(cn.kids, c.Hash())
+					if i == 16 {
+						cn.labels = append(cn.labels, []byte{})
+					} else {
+						cn.labels = append(cn.labels, []byte{byte(i)})
+					}
+				} else if c.Type() != mpt.EmptyT {
+					panic("source trie node with an inline child")
 				}
 			}
 		case *mpt.ExtensionNode:
-			for h := range mpt.GetChildrenPaths(nil, x) {
+			for h, ps := range mpt.GetChildrenPaths(nil, x) {
 				cn.kids = append(cn.kids, h)
+				cn.labels = append(cn.labels, bytes.Clone(ps[0]))
 			}
+		case *mpt.LeafNode:
+			cn.leaf = true
 		}
 		out = append(out, cn)
 		return false
@@ -263,7 +278,6 @@ func (s *c20Source) nodes(root util.Uint256) []c20Node {
 			panic("source node bytes are not canonical")
 		}
 	}
-	sort.Slice(out, func(i, j int) bool { return bytes.Compare(out[i].h[:], out[j].h[:]) < 0 })
 	return out
 }
 
@@ -302,7 +316,7 @@ func c20OpenBolt(dir string) (*c20Bolt, error) {
 	var perr any
 	func() {
 		defer func() { perr = recover() }()
-		bc, _ = chain.NewSingleWithOptions(tb, &chain.Options{Logger: zap.NewNop(), BlockchainConfigHook: c20BoltCfg, Store: st, SkipRun: true})
+		bc, _ = chain.NewSingleWithOptions(tb, &chain.Options{Logger: c20Logger(), BlockchainConfigHook: c20BoltCfg, Store: st, SkipRun: true})
 	}()
 	if perr != nil {
 		st.Close()
@@ -313,6 +327,11 @@ func c20OpenBolt(dir string) (*c20Bolt, error) {
 }
 
 func (b *c20Bolt) close() { b.bc.Close() }
+
+// a silent logger whose Fatal panics (caught per operation) instead of exiting the process
+func c20Logger() *zap.Logger {
+	return zap.New(zapcore.NewNopCore(), zap.WithFatalHook(zapcore.WriteThenPanic))
+}
 
 func (b *c20Bolt) reopen() error {
 	b.close()
